@@ -33,7 +33,8 @@ def meta_of(facts):
         names = b.get('names') or {}
         fns[p] = {'pub': facts.fns.get(p, {}).get('pub'), 'sig': b['locals'][:b['argc'] + 1],
                   'params': [names.get(str(i)) for i in range(1, b['argc'] + 1)]}
-    return {'adts': adts, 'fns': fns}
+    impls = sorted({(i.get('trait') or '', (facts.ty(i['self_ty']).get('path') or i['self_ty'])) for i in facts.impls if i.get('trait')})
+    return {'adts': adts, 'fns': fns, 'impls': [list(x) for x in impls]}
 
 
 _LT = re.compile(r"'[a-z_][a-z0-9_]*\b ?")
